@@ -54,6 +54,32 @@ def _long_recovery():
     return ['x' * n + ';' for n in (255, 1021, 1022, 1023, 1024, 1100)] + ['x' * 600 + 'y' + 'x' * 600 + ';', 'x' * 1100 + 'y', 'y' * 1100 + ';']
 def _long_expr():
     return ['(' * d + '1' + ')' * d for d in (100, 340, 511, 512, 600)] + ['1' + '+2' * k for k in (300, 511, 512, 600)] + ['(' * 600 + '1', '1' + '+2' * 600 + '+']
+# the other call forms during constant evaluation: non-default options, a context, a custom lexer
+GRAMMARS['stars-nows'] = dict(GRAMMARS['stars'], opts='parse_options{}.set_skip_whitespace(false)')
+GRAMMARS['recovery-nonl'] = dict(GRAMMARS['recovery'], alphabet=['x', ';', 'y', ' ', '\n'], opts='parse_options{}.set_skip_newline(false)')
+GRAMMARS['ctx'] = dict(alphabet=['a', 'b', ' ', 'x'], ctx='const int ctx_base = 100;', code=r'''
+constexpr nterm<int> S("S"); constexpr nterm<int> L("L");
+#define PARSER_ARGS S, terms('a', 'b'), nterms(S, L), rules( \
+        S(L) >>= [](const int& c, int n){ return c + n; }, \
+        L() >= val(0), \
+        L(L, 'a') >>= [](const int& c, int n, skip){ return n * 3 + 1 + (c - 100); }, \
+        L(L, 'b') >= [](int n, skip){ return n * 3 + 2; })''')
+GRAMMARS['custom'] = dict(alphabet=['1', '9', ',', ' ', 'x'], code=r'''
+struct int_lexer {
+    template<typename Iterator, typename ErrorStream>
+    constexpr recognized_term match(match_options, source_point, Iterator start, Iterator end, ErrorStream&) {
+        if (start == end) return recognized_term{};
+        if (*start >= '0' && *start <= '9') return recognized_term(1, 1);
+        if (*start == ',') return recognized_term(0, 1);
+        return recognized_term{};
+    }
+};
+constexpr nterm<int> list("list");
+constexpr custom_term number("number", [](auto sv){ return int(sv[0]) - '0'; });
+constexpr custom_term comma(",", create<no_type>{});
+#define PARSER_ARGS list, terms(comma, number), nterms(list), rules( \
+        list(number), \
+        list(list, comma, number) >= [](int sum, skip, int x){ return sum + x; }), use_lexer<int_lexer>{}''')
 GRAMMARS['stars-long'] = dict(GRAMMARS['stars'], long=_long_stars())
 GRAMMARS['recovery-long'] = dict(GRAMMARS['recovery'], long=_long_recovery())
 GRAMMARS['expr-long'] = dict(GRAMMARS['expr'], long=_long_expr())
@@ -76,12 +102,18 @@ def main():
     if 'long' in G: inputs = list(G['long'])
     lines = ['#include <ctpg/ctpg.hpp>', '#include <cstdio>', '#include <string>', '#include <optional>',
              'using namespace ctpg; using namespace ctpg::ftors; using namespace ctpg::buffers;', G['code'],
-             'constexpr parser p(PARSER_ARGS);']
+             'constexpr parser p(PARSER_ARGS);',
+             '#define OPTS ' + G.get('opts', 'parse_options{}'), G.get('ctx', ''),
+             # every parse goes through the same overload family: (options, buffer, stream), with the context when the grammar has one
+             ('template<class P, class B> constexpr auto do_parse(const P& q, const B& b) { utils::no_stream ns; return q.context_parse(ctx_base, OPTS, b, ns); }' if 'ctx' in G else
+              'template<class P, class B> constexpr auto do_parse(const P& q, const B& b) { utils::no_stream ns; return q.parse(OPTS, b, ns); }') if ('opts' in G or 'ctx' in G) else
+              'template<class P, class B> constexpr auto do_parse(const P& q, const B& b) { return q.parse(b); }',
+             'template<size_t N> constexpr auto ce_parse(const char (&t)[N]) { return do_parse(p, cstring_buffer(t)); }']
     src = '\n'.join(lines).split('\n')
     linemap = {}
     for i, s in enumerate(inputs):
         src.append('#ifndef NOCE_%d' % i)
-        src.append('constexpr auto r_%d = p.parse(cstring_buffer(%s));' % (i, lit(s)))
+        src.append('constexpr auto r_%d = ce_parse(%s);' % (i, lit(s)))
         linemap[len(src)] = i
         src.append('#define HAVE_%d 1' % i)
         src.append('#endif')
@@ -92,9 +124,9 @@ template<class P, class PR, size_t N> static void run_case(int id, const P& pc, 
     ++g_cases;
     std::string s(text, N - 1);
     std::string big = s + " " + s + "\n" + s;   // the same text as a window into a longer buffer: nothing beyond the view may be read
-    std::optional<int> r[7] = { pc.parse(cstring_buffer(text)), pc.parse(string_buffer(std::string(s))), pc.parse(string_view_buffer(std::string_view(s))),
-                                pr.parse(cstring_buffer(text)), pr.parse(string_buffer(std::string(s))), pr.parse(string_view_buffer(std::string_view(s))),
-                                pc.parse(string_view_buffer(std::string_view(big).substr(0, s.size()))) };
+    std::optional<int> r[7] = { do_parse(pc, cstring_buffer(text)), do_parse(pc, string_buffer(std::string(s))), do_parse(pc, string_view_buffer(std::string_view(s))),
+                                do_parse(pr, cstring_buffer(text)), do_parse(pr, string_buffer(std::string(s))), do_parse(pr, string_view_buffer(std::string_view(s))),
+                                do_parse(pc, string_view_buffer(std::string_view(big).substr(0, s.size()))) };
     static const char* names[7] = {"constexpr-parser/cstring", "constexpr-parser/string", "constexpr-parser/string_view", "runtime-parser/cstring", "runtime-parser/string", "runtime-parser/string_view", "constexpr-parser/string_view window into a longer text"};
     if (r[0]) ++g_accept;
     for (int k = 1; k < 7; ++k) { ++g_checks; if (r[k] != r[0]) { ++g_fail; if (g_first.empty()) g_first = "case " + std::to_string(id) + ": " + names[k] + " gives " + show(r[k]) + " but " + names[0] + " gives " + show(r[0]); } }
